@@ -267,6 +267,8 @@ def oracle(ctx, extra):
             doc = extra[i]
         elif k < 0.2:
             doc = gen_docs.showcase(r) if r.random() < 0.6 else gen_docs.special_slots(r)
+            if directives and r.random() < 0.3:
+                doc = gen_docs.directive_doc(r, "fenced" if r.random() < 0.5 else "rst")
         elif k < 0.6:
             doc = gen_docs.doc(r, plugins=names, directives=directives)
         elif k < 0.75:
